@@ -78,7 +78,16 @@ def main():
         pre = src / "suite.json"          # written by harness/seed_suite_pre.py (same patch, same HEAD), if it ran
         if pre.exists() and json.loads(pre.read_text()).get("repo_commit") == meta["repo_commit"]:
             meta["steps"]["suite_with_change"] = json.loads(pre.read_text())["suite_with_change"]
-        elif "--no-suite" not in sys.argv:
+        elif "--no-suite" in sys.argv:
+            # re-evaluation: keep the suite result of the first evaluation of this change (same patch)
+            try:
+                prev = json.loads((VERIF / "seeded" / sid / "meta.json").read_text())
+                if "suite_with_change" in prev["steps"]:
+                    meta["steps"]["suite_with_change"] = dict(prev["steps"]["suite_with_change"],
+                                                              carried_over_from=prev.get("repo_commit"))
+            except Exception:  # noqa: BLE001
+                pass
+        else:
             missing = suite(wt)
             meta["steps"]["suite_with_change"] = {"baseline_tests_not_passing": len(missing), "first": missing[:5]}
         env = dict(os.environ, ATTRS_REPO=str(wt))
